@@ -444,6 +444,18 @@ class Canon:
                     bo = self.builder_of(e.site, i)
                     if bo is not None:
                         r = '[' + ', '.join(self.seq(*bo)) + ']'
+                    elif e.site[1] == -1 and not getattr(self, '_in_fixed', False):
+                        t_ = self.fn.blocks[e.site[0]]['term']
+                        if t_['k'] == 'call' and i < len(t_['args']) and t_['args'][i]['k'] in ('copy', 'move') \
+                                and not (self.fn.local_ty(t_['args'][i]['pl']['l']) or '').startswith('&mut') \
+                                and last(t_['fn'].get('name') or '') not in ('index', 'index_mut', 'copy_from_slice', 'clone_from_slice'):
+                            self._in_fixed = True
+                            try:
+                                fa_ = fixed_array_seq(self.fn, self.P, self, t_['args'][i], e.site[0], len(self.fn.blocks[e.site[0]]['stmts']))
+                            finally:
+                                self._in_fixed = False
+                            if fa_ is not None:
+                                r = '[' + ', '.join(fa_) + ']'
                 args.append(r if r is not None else self.c(a))
             if last(e.name) in self.commut:
                 args = sorted(args)
@@ -505,8 +517,101 @@ def preimage(fn, P, block, argi=0, canon=None):
         es = strip(e)
         if es.k == 'call' and last(es.name) == 'concat' and len(es.args) == 1 and strip(es.args[0]).k == 'aggr' and strip(es.args[0]).name == 'array':
             return [cn.c(a) for a in strip(es.args[0]).args], None
+        fa = fixed_array_seq(fn, P, cn, t['args'][argi], block, len(fn.blocks[block]['stmts']))
+        if fa is not None:
+            return fa, None
         return None, cn.c(e)
     return cn.seq(*bo), None
+
+
+def fixed_array_seq(fn, P, cn, op, b, idx):
+    """a `[u8; N]` buffer filled by element stores and `buf[a..b].copy_from_slice(src)` at constant offsets, read at
+    (b, idx): the canonical element list, like the appends of a Vec (`byte(v)` for single stores, the source for slices,
+    `zeros(n)` for untouched cells).  Later dominating writes override earlier ones (a reused buffer whose tag byte is
+    rewritten).  None when a write may or may not have happened (not dominating) or tiles overlap partially."""
+    import re as _re
+    from .prov import const_int
+    L = root_local(P, op, b, idx)
+    if L is None:
+        return None
+    m = _re.match(r'^\[u8; (\d+)\]$', (fn.local_ty(L) or '').strip())
+    if not m:
+        return None
+    N = int(m.group(1))
+    # only buffers that start as a literal ([0u8; N] / [a, b, ..]) in this function and are then filled
+    if not any(st['k'] == 'assign' and st['lhs']['l'] == L and not st['lhs']['p'] and st['rv']['k'] in ('repeat', 'aggr') for _, _, st in fn.stmts()):
+        return None
+    dom = fn.dominators()
+    writes = []
+    for bb, i, st in fn.stmts():
+        if st['k'] == 'assign' and st['lhs']['l'] == L and st['lhs']['p']:
+            pr = st['lhs']['p']
+            k = None
+            if len(pr) == 1 and isinstance(pr[0], dict):
+                k = pr[0].get('cidx')
+                if k is None and 'idx' in pr[0]:
+                    k = const_int(norm(P.local(pr[0]['idx'], bb, i)))
+            if k is None:
+                return None
+            writes.append((bb, i, k, 1, 'byte(%s)' % cn.c(norm(P.rvalue(st['rv'], bb, i, 0)))))
+    for bb, t in fn.calls():
+        if t['fn']['k'] != 'def' or last(t['fn']['name']) not in ('copy_from_slice', 'clone_from_slice', 'fill', 'copy_within') or not t['args'] or t['args'][0]['k'] not in ('copy', 'move'):
+            continue
+        n_ = len(fn.blocks[bb]['stmts'])
+        if root_local(P, t['args'][0], bb, n_) != L:
+            continue
+        if last(t['fn']['name']) in ('fill', 'copy_within'):
+            return None
+        dst = strip(norm(P.operand(t['args'][0], bb, n_)))
+        a_, e_ = 0, N
+        if dst.k == 'call' and last(dst.name) in ('index_mut', 'index') and len(dst.args) == 2:
+            r = strip(dst.args[1])
+            if r.k != 'aggr':
+                return None
+            vals = [const_int(x) for x in r.args]
+            if any(v is None for v in vals):
+                return None
+            if r.name == 'Range::Range':
+                a_, e_ = vals
+            elif r.name == 'RangeFrom::RangeFrom':
+                a_ = vals[0]
+            elif r.name == 'RangeTo::RangeTo':
+                e_ = vals[0]
+            elif r.name != 'RangeFull::RangeFull':
+                return None
+        writes.append((bb, n_, a_, e_ - a_, cn.c(norm(P.operand(t['args'][1], bb, n_)))))
+    if not writes:
+        return None
+    use_dom = dom.get(b, set())
+    keep = []
+    for w in writes:
+        bb, i = w[0], w[1]
+        before = (bb == b and i < idx) or (bb != b and bb in use_dom)
+        if before:
+            keep.append(w)
+        elif b in fn.reachable(bb) and bb != b:
+            return None          # may or may not have happened
+    keep.sort(key=lambda w: (len(dom.get(w[0], ())), w[0], w[1]))
+    cells = [None] * N
+    for wi, w in enumerate(keep):
+        for k in range(w[2], min(N, w[2] + w[3])):
+            cells[k] = wi
+    out = []
+    k = 0
+    while k < N:
+        wi = cells[k]
+        j = k
+        while j < N and cells[j] == wi:
+            j += 1
+        if wi is None:
+            out.append('zeros(%d)' % (j - k))
+        else:
+            w = keep[wi]
+            if k != w[2] or j - k != w[3]:
+                return None      # a tile that is only partially visible
+            out.append(w[4])
+        k = j
+    return out
 
 
 def branch_sequences(fn, P, op, b, i, canon):
